@@ -61,8 +61,95 @@ class C10(Check):
 
     # ------------------------------------------------------------ running
     def run(self, tier, seed, replay=None):
+        try:
+            os.remove(os.path.join(WORK, "errflow_probe_c10.json"))
+        except OSError:
+            pass
         self.prebuild()
+        self.probe_unknown_sites(tier, seed)
         return super().run(tier, seed, replay)
+
+    BAD_AT_K = ("success_with_failed_write", "database_changed_after_rollback", "write_count_not_reproducible")
+
+    def probe_unknown_sites(self, tier, seed):
+        """Behavioural fallback for call sites whose error handling the
+        extractor's reader does not recognise (disposition `unknown`; a
+        recognised dropping / logging shape is never reconsidered).  The fault
+        sweep of this run decides: the harness reports, for every fired fault,
+        which of these sites lie on the call chain above the failing write.  A
+        site counts as propagated (facts_source: probe) when faults fired
+        below it at least once for every operation the transcription says
+        uses it (at least once at all when the transcription does not name
+        it), and EVERY such run reported the error and restored the database.
+        Otherwise - never exercised, or some run answered success - the
+        obligation fails as before."""
+        self.probe_report = {}
+        try:
+            raw = json.load(open(os.path.join(WORK, "errflow_c10.json")))
+        except (OSError, ValueError):
+            return
+        unknown = sorted({s["id"] for s in raw["sites"] if s["disp"] == "unknown" and not s.get("allowed")})
+        if not unknown:
+            return
+        okh, _ = build_harness(self.vh_cmd())
+        if not okh:
+            return
+        cases = []
+        for a in self.gen_args(tier if tier == "quick" else "quick", seed):
+            try:
+                rc, cs, _ = run_vh(a)
+            except Exception:
+                return
+            cases.extend(cs)
+        fired = {u: [] for u in unknown}
+        for c in cases:
+            for p in c["obs"]["probes"]:
+                names = [p["name"]] if c["in"]["kind"] == "tx" else p["name"].split("+")
+                for k in p["ks"]:
+                    if not k.get("fired"):
+                        continue
+                    ok = bool(k.get("err")) and not any(kd.split("@")[0] in self.BAD_AT_K for kd in (k.get("kinds") or []))
+                    op = names[min(k.get("call", 0), len(names) - 1)]
+                    for u in k.get("below") or []:
+                        if u in fired:
+                            fired[u].append((op, ok))
+        uses = self.model_ops_using(unknown)
+        verdict = {}
+        for u in unknown:
+            ops = sorted({op for op, _ in fired[u]})
+            need = uses.get(u, [])
+            missing = [n for n in need if not any(op == n or op.startswith(n + "(") for op in ops)]
+            allok = all(ok for _, ok in fired[u])
+            self.probe_report[u] = dict(fired=len(fired[u]), operations=ops, every_run_reported_the_error=allok,
+                                        operations_using_it_per_model=need, never_exercised_in=missing)
+            if fired[u] and allok and not missing:
+                verdict[u] = dict(fired=len(fired[u]), ops=ops)
+                self.probe_report[u]["facts_source"] = "probe"
+        if not verdict:
+            return
+        with open(os.path.join(WORK, "errflow_probe_c10.json"), "w") as f:
+            json.dump(dict(table_digest=raw.get("digest"), propagated=verdict), f)
+        self.prebuild()
+
+    def model_ops_using(self, sites):
+        text = """From Coq Require Import List String.
+From Verif Require Import Fault.Fault Fault.FaultTx Fault.FaultMgr.
+Import ListNotations.
+Local Open Scope string_scope.
+Definition uses := Eval vm_compute in
+  map (fun s => (s, (map fst (filter (fun ke => mem_site s (tx_sites (snd ke))) tx_kinds) ++
+                     map fst (filter (fun ko => mem_site s (mgr_sites (snd ko))) mgr_kinds))%%list))
+      %s.
+Print uses.
+""" % clist(['"%s"' % s.replace('"', '""') for s in sites])
+        rc, out, err = coq_eval(self.ID, text, "probe_uses")
+        res = {}
+        if rc != 0:
+            return res
+        body = parse_printed(out, "uses") or ""
+        for m in re.finditer(r'\("((?:[^"]|"")*)"(?:%string)?,\s*\[(.*?)\]\)', body, re.S):
+            res[m.group(1)] = re.findall(r'"((?:[^"]|"")*)"', m.group(2))
+        return res
 
     OWN = ["Generated/ErrFlow.v", "Fault/Fault.v", "Fault/FaultProofs.v", "Fault/FaultTx.v", "Fault/FaultMgr.v",
            "Fault/FaultSites.v", "Fault/FaultCorr.v", "Properties/C10.v"]
@@ -454,6 +541,9 @@ Print diag.
         out["errflow_dispositions"] = dict(disp)
         out["errflow_not_propagated"] = ["%s:%d %s -> %s: %s (%s)" % (s["file"], s["line"], s["func"], s["callee"], s["disp"], s["detail"])
                                          for s in sites if s.get("code", 0) != 0]
+        out["errflow_decided_by_probe"] = ["%s:%d %s -> %s: %s" % (s["file"], s["line"], s["func"], s["callee"], s["allowed"])
+                                           for s in sites if s.get("probe")]
+        out["errflow_probe_report"] = getattr(self, "probe_report", {})
         out["errflow_memory_shapes"] = {r["func"]: r["shape"] for r in res.get("shapes", []) if r["shape"] != "none"}
         out["errflow_read_side_cache_fills_not_counted"] = res.get("read_caches", [])
         out["errflow_allow_listed"] = ["%s:%d %s -> %s: %s" % (s["file"], s["line"], s["func"], s["callee"], s["allowed"])
